@@ -324,8 +324,12 @@ def cpp_only_first(ctx, model):
         shutil.rmtree(d, ignore_errors=True)
 
 
+_nmodel = [0]
+
+
 def check_model(ctx, model, style_seed, cli=False):
-    if ctx.rng.random() < 0.5:
+    _nmodel[0] += 1
+    if _nmodel[0] % 2:      # (every second model: a quota, not a chance)
         cpp_only_first(ctx, model)
     text = A.render(model, random.Random(style_seed))
     res = [r for ln in model["lines"] for r in A.resonances(ln["node"])]
